@@ -328,19 +328,30 @@ ScripDecode(src) == [ f \in 1..Len(src.corners) |-> [ j \in 1..Len(src.corners[f
                         IF j <= ScripCount(src.corners[f]) THEN src.corners[f][j] ELSE PAD ] ]
 
 (* ---- Exodus: 1-based connectN, one element type per block, elements numbered block after block *)
-ExoDs(m) == { d \in [ coord : { "coord", "xyz" }, dtype : { "int32", "int64" }, order : { "asc", "desc" }, split : { "no", "yes" } ] :
+\* blocks: "min" one block per element size; "plus1" one size split over two blocks; "n11" / "n12": faces of one size
+\* spread over so many single-type blocks that the file has 11 / 12 of them (connect10, connect11 ... exist:
+\* blocks are numbered, and elements follow the blocks in NUMERIC order)
+ExoBlockCount(m, d) == LET k == Cardinality({ Len(m.faces[f]) : f \in 1..Len(m.faces) })
+                       IN CASE d.blocks = "min" -> k [] d.blocks = "plus1" -> k + 1 [] d.blocks = "n11" -> 11 [] OTHER -> 12
+ExoDs(m) == { d \in [ coord : { "coord", "xyz" }, dtype : { "int32", "int64" }, order : { "asc", "desc" },
+                      blocks : { "min", "plus1", "n11", "n12" } ] :
                 /\ (Uniform(m) => d.order = "asc")
-                /\ (Len(m.faces) < 2 => d.split = "no") }
+                /\ ExoBlockCount(m, d) <= Len(m.faces)           \* every block has an element
+                /\ (m.big => d.blocks \in { "min", "n12" }) }
 SizesSeq(m, order) == SetToSortSeq({ Len(m.faces[f]) : f \in 1..Len(m.faces) },
                                    LAMBDA a, b : IF order = "asc" THEN a < b ELSE a > b)
 FacesOfSize(m, s) == SelectSeq([ k \in 1..Len(m.faces) |-> k ], LAMBDA k : Len(m.faces[k]) = s)
+\* peel single-element blocks off the groups (front first) until `need` more blocks exist
+RECURSIVE Peel(_, _)
+Peel(groups, need) ==
+    IF need = 0 \/ groups = <<>> THEN groups
+    ELSE IF Len(groups[1]) >= 2
+         THEN << << groups[1][1] >> >> \o Peel(<< Tail(groups[1]) >> \o Tail(groups), need - 1)
+         ELSE << groups[1] >> \o Peel(Tail(groups), need)
 ExoGroups(m, d) ==
     LET ss == SizesSeq(m, d.order)
         g0 == [ i \in 1..Len(ss) |-> FacesOfSize(m, ss[i]) ]
-        h  == Len(g0[1]) \div 2
-    IN IF d.split = "yes" /\ Len(g0[1]) >= 2
-       THEN << SubSeq(g0[1], 1, h), SubSeq(g0[1], h + 1, Len(g0[1])) >> \o Tail(g0)
-       ELSE g0
+    IN Peel(g0, ExoBlockCount(m, d) - Len(g0))
 ExoPerm(m, d) == FlattenSeq(ExoGroups(m, d))                 \* 1-based source face positions, in element order
 ExoStored(m, d) ==
     LET G == ExoGroups(m, d)
@@ -569,7 +580,7 @@ Tags(m, route, d) ==
                             LET src == UgridStored(m, d) IN
                             \E T \in { src.face_node, src.edge_node, src.face_edge, src.edge_face } :
                                T # <<>> /\ \E r \in 1..Len(T) : \E j \in 1..Len(T[r]) : T[r][j] = UgridFill(d),
-      nblocks |-> IF route = "exodus" THEN (IF Len(ExoGroups(m, d)) > 1 THEN ">1" ELSE "1") ELSE "-",
+      nblocks |-> IF route = "exodus" THEN (IF Len(ExoGroups(m, d)) >= 10 THEN ">=10" ELSE IF Len(ExoGroups(m, d)) > 1 THEN ">1" ELSE "1") ELSE "-",
       multipart |-> route = "geo" /\ \E g \in Range(GeoGrouping(m, d)) : Len(g) > 1,
       based |-> CASE route \in { "ugrid", "topology", "esmf" } -> d.start [] OTHER -> "-",
       \* a UGRID source without start_index in which some table's least stored value is not the index base 0
@@ -598,6 +609,19 @@ DecodeAs(src, opt) ==
 \* is the k-th result judged as faces of the case's mesh (by position) or as the other grid's index table?
 StepMode(route, opt) == IF opt = "same" \/ (route = "mpas" /\ opt = "primal") \/ (route = "mpas_dual" /\ opt = "dual")
                         THEN "faces" ELSE "ids"
+\* The ORDER in which the decoded Grid's attributes are read is a parameter of every observation: a Grid is a
+\* lazily populated object, and what it presents must not depend on which of its attributes was asked for first.
+\* An order is "first" followed by the others in the base order.  The first decoding of a source is read in the
+\* order chosen with the case (all four for sources that supply Cartesian node coordinates only, where longitudes
+\* and latitudes are derived on demand); every later decoding of the same input is read in another order, so each
+\* in-memory source is observed under at least two.  DecodeAs has no order argument: that IS the specification.
+ReadBase == << "conn", "lon", "lat", "xyz" >>
+ReadOrder(first) == << first >> \o SelectSeq(ReadBase, LAMBDA x : x # first)
+CartesianOnly(route, d) == (route = "verts" /\ d.coords = "xyz")
+FirstChoices(route, d) == IF CartesianOnly(route, d) THEN { "conn", "lon", "lat", "xyz" } ELSE { "conn" }
+LaterFirst == << "conn", "lat", "xyz" >>          \* decoding 2 is read latitude first, decoding 3 Cartesian first
+Orders(m, route, d, first) == [ i \in 1..Len(Plan(m, route, d)) |-> ReadOrder(IF i = 1 THEN first ELSE LaterFirst[i]) ]
+
 \* the two mechanisms.  "aliases" transcribes a decoder that converts a table already stored as the platform
 \* integer in place: afterwards the shared input holds zero-based indices and fill values.
 InPlace(T, dec) == [ r \in 1..Len(T) |-> [ j \in 1..Len(T[r]) |-> IF dec[r][j] = PAD THEN BIGFILL ELSE dec[r][j] ] ]
@@ -614,8 +638,9 @@ InputAfter(inp, opt) ==
 VARIABLES mi, route, d,
           nd,      \* number of decodings done
           inp,     \* what the shared input object holds now
-          outs     \* the decoded face tables so far
-vars == << mi, route, d, nd, inp, outs >>
+          outs,    \* the decoded face tables so far
+          ro       \* which attribute of the first decoded Grid is read first
+vars == << mi, route, d, nd, inp, outs, ro >>
 NoD == [ none |-> TRUE ]
 
 M == MeshList[mi]
@@ -623,9 +648,10 @@ M == MeshList[mi]
 Init == /\ mi \in MeshSel
         /\ route \in (RouteSel \cup { "mesh" })
         /\ (route = "mesh" \/ Applies(MeshList[mi], route))
-        /\ d = NoD /\ nd = 0 /\ inp = NoD /\ outs = <<>>
+        /\ d = NoD /\ nd = 0 /\ inp = NoD /\ outs = <<>> /\ ro = "-"
 Choose == /\ d = NoD /\ route # "mesh"
           /\ d' \in DialectsOf(M, route)
+          /\ ro' \in FirstChoices(route, d')
           /\ inp' = StoredSrc(M, route, d')
           /\ UNCHANGED << mi, route, nd, outs >>
 DecodeStep == /\ d # NoD /\ nd < Len(Plan(M, route, d))
@@ -633,7 +659,7 @@ DecodeStep == /\ d # NoD /\ nd < Len(Plan(M, route, d))
                    /\ outs' = Append(outs, DecodeAs(inp, opt))       \* reads what the input holds NOW
                    /\ inp' = InputAfter(inp, opt)
               /\ nd' = nd + 1
-              /\ UNCHANGED << mi, route, d >>
+              /\ UNCHANGED << mi, route, d, ro >>
 Next == Choose \/ DecodeStep
 
 IsCase == d # NoD /\ nd = 0         \* the per-source theorems and the emission are evaluated once per source
@@ -665,6 +691,8 @@ PermOK == IsCase =>
        /\ \A i, j \in 1..Len(p) : i # j => p[i] # p[j]
        /\ ((route \notin { "verts" } /\ M.xrows = <<>>) => Range(p) = 0..(Len(M.faces) - 1))
        /\ ((route = "exodus" /\ Tags(M, route, d).nblocks = "1") => p = [ k \in 1..Len(p) |-> k - 1 ])
+       /\ (route = "exodus" => /\ Len(ExoGroups(M, d)) = ExoBlockCount(M, d)
+                               /\ \A b \in 1..Len(ExoGroups(M, d)) : ExoGroups(M, d)[b] # <<>>)
 
 \* supplied connectivity is itself a correct description of the mesh (relations of Mesh.tla)
 CarriedConsistent == IsCase =>
@@ -728,6 +756,8 @@ EmitCase == IsCase =>
                         fe_slots |-> FaceEdgeSlots(route),
                         complete |-> Complete(M, route, d),
                         plan |-> Plan(M, route, d),
+                        first |-> ro,
+                        orders |-> Orders(M, route, d, ro),
                         modes |-> [ i \in 1..Len(Plan(M, route, d)) |-> StepMode(route, Plan(M, route, d)[i]) ],
                         exps |-> [ i \in 1..Len(Plan(M, route, d)) |-> DecodeAs(StoredSrc(M, route, d), Plan(M, route, d)[i]) ],
                         tags |-> Tags(M, route, d),
